@@ -86,7 +86,7 @@ def build_world(cfg):
     nb = min(cfg["brackets"], len(levels) + 1)
     sign = 1.0 if cfg["mode"] == "min" else -1.0
     perms = {int(k): tuple(v) for k, v in cfg["perms"].items()}
-    table = table_from_perms(cfg["T"], max_t, perms, sign)
+    table = table_from_perms(cfg["T"], max_t, perms, sign, zero_rank=cfg.get("zero_rank"))
     mra = "epochs" if cfg.get("use_mra") else None
     spec = dict(W=cfg["W"], T=cfg["T"], R=max_t, table=table, brackets=(nb if nb > 1 else 0) if not cfg.get("free_brackets") else 0,
                 max_resource_attr=mra, scratch=cfg.get("scratch", False), fail_budget=cfg.get("F", 0))
@@ -145,6 +145,7 @@ def configs(tier, seed):
                         cfg = dict(rs=rs_name, mode=mode, brackets=brackets, per_bracket=per_bracket, type=typ,
                                    T=T, W=W, perms=perms, seed=seed, use_mra=(i % 2 == 0),
                                    scratch=(i % 2 == 1), cost_variant=i)
+                        cfg["zero_rank"] = [T - 1, None, 1][(i + len(out)) % 3]
                         cfg["max_states"] = 3000 if tier == "quick" else 40000
                         out.append(cfg)
     return out
